@@ -270,6 +270,21 @@ PROPS = {
              "buffers of 0..N from iterators of 0, 1, len, other: SpyOut exactly-once or Err without partial state; real buffers with "
              "String elements. distinct = (function, type, length class, direction)",
     ),
+    "C20": dict(
+        bin="c20",
+        quick=NATIVE_QR, thorough=NATIVE_T,
+        floors={"winsorize_ok.quantile": 200, "winsorize_ok.median": 200, "winsorize_ok.sigma": 200, "winsorize_clipped.quantile": 50,
+                "winsorize_clipped.median": 50, "winsorize_clipped.sigma": 50, "spearman_ok": 300, "spearman_invariance_ok": 100,
+                "half_life_in_range": 300, "half_life_value_ok": 30},
+        technique="runtime monitoring: reference-model oracle (bounds from scratch, ranks + Pearson, brute-force autocorrelation) and a logical step budget (passes over an instrumented container) for bounded progress",
+        rule="winsorize (quantile q in [0,0.5], median +- k MAD, mean +- k sigma) on len 0..N x 10 null patterns x 14 value classes + random "
+             "len<=120: one value per input, nulls kept, values strictly inside the recomputed bounds unchanged exactly, values outside "
+             "moved onto the nearer bound (tolerance zone tau), order preserved; Spearman = Pearson of own average ranks, exact invariance "
+             "under x->2x+1, x^3, exp(x/4); half_life on an instrumented SpyVec (pass budget 4(ceil(log2 len)+2)+8, dbg and rel): no panic, "
+             "result in [1,len-1] (0 iff len<2), and = min(L,len-1) on series whose brute-force lag autocorrelation is > 0.5+d below L and "
+             "< 0.5-d from L on (AR(1) paths of every persistence, trends, alternating, with nulls). distinct = (function, method / "
+             "parameters, len, result)",
+    ),
 }
 
 for _k in list(PROPS):
